@@ -8,7 +8,11 @@ if ! git diff --quiet; then echo "repo dirty, refusing"; exit 2; fi
 sed -i -E "$expr" "$file"
 if git diff --quiet; then echo "MUTATION DID NOT APPLY: $expr"; exit 3; fi
 git diff | grep '^[-+]' | grep -v '^+++\|^---' | head -6
-cd /verif/sim && CARGO_NET_OFFLINE=true cargo build --release --offline 2>&1 | grep -E "^error" -A 8 | head -20
+cd /verif/sim
+if ! CARGO_NET_OFFLINE=true cargo build --release --offline >/tmp/mutant-build.log 2>&1; then
+  echo "MUTANT DOES NOT COMPILE"; grep -E "^error" -A 6 /tmp/mutant-build.log | head -12
+  cd /repo && git checkout -- .; exit 4
+fi
 if [ -n "$runs" ]; then ./target/release/egsim check "$prop" --no-evidence --runs "$runs" | grep -E "VIOLATION|violation in|HELD|harness"; else ./target/release/egsim check "$prop" --no-evidence | grep -E "VIOLATION|violation in|HELD|harness"; fi
 rc=$?
 cd /repo && git checkout -- . 
